@@ -386,6 +386,52 @@ pub fn replay(args: &[String]) {
     println!("{}", json!({"module": "cli", "events": events.len()}));
 }
 
+/// Repositories in states a tool rarely meets: every one must give Ok or a clean error.
+fn odd_repositories() -> Vec<(&'static str, std::path::PathBuf)> {
+    let base = std::env::temp_dir().join(format!("zv-odd-{}", std::process::id()));
+    let _ = std::fs::remove_dir_all(&base);
+    std::fs::create_dir_all(&base).unwrap();
+    let git = |dir: &std::path::Path, args: &[&str]| { let _ = Command::new("git").args(args).current_dir(dir).output(); };
+    let fresh = |name: &str| -> std::path::PathBuf {
+        let d = base.join(name);
+        std::fs::create_dir_all(&d).unwrap();
+        git(&d, &["init", "-q", "-b", "main"]);
+        std::fs::write(d.join("f.txt"), "1\n").unwrap();
+        git(&d, &["add", "f.txt"]);
+        git(&d, &["commit", "-q", "-m", "c1"]);
+        git(&d, &["tag", "v1.2.3"]);
+        std::fs::write(d.join("f.txt"), "2\n").unwrap();
+        git(&d, &["commit", "-q", "-am", "c2"]);
+        d
+    };
+    let mut v: Vec<(&'static str, std::path::PathBuf)> = vec![];
+    // HEAD on an unborn (orphan) branch although the repository has commits and tags
+    let d = fresh("orphan"); git(&d, &["checkout", "-q", "--orphan", "fresh-start"]); v.push(("orphan-branch", d));
+    // a bare repository
+    let d = base.join("bare.git"); std::fs::create_dir_all(&d).unwrap(); git(&d, &["init", "-q", "--bare"]); v.push(("bare", d));
+    // .git is an empty directory / a file with garbage / a gitfile pointing nowhere
+    let d = base.join("emptygit"); std::fs::create_dir_all(d.join(".git")).unwrap(); v.push(("empty-dot-git-directory", d));
+    let d = base.join("filegit"); std::fs::create_dir_all(&d).unwrap(); std::fs::write(d.join(".git"), b"\xff\xfe not a gitfile\n").unwrap(); v.push(("garbage-dot-git-file", d));
+    let d = base.join("danglinggit"); std::fs::create_dir_all(&d).unwrap(); std::fs::write(d.join(".git"), "gitdir: /nonexistent/place\n").unwrap(); v.push(("dangling-gitfile", d));
+    // HEAD contains garbage; HEAD points to a branch that does not exist
+    let d = fresh("badhead"); std::fs::write(d.join(".git").join("HEAD"), "garbage\n").unwrap(); v.push(("garbage-HEAD", d));
+    let d = fresh("missingref"); std::fs::write(d.join(".git").join("HEAD"), "ref: refs/heads/gone\n").unwrap(); v.push(("HEAD-to-missing-branch", d));
+    // a tag ref pointing to an object that does not exist; an empty tag ref file
+    let d = fresh("badtag"); std::fs::write(d.join(".git").join("refs").join("tags").join("v9.9.9"), "0123456789012345678901234567890123456789\n").unwrap(); v.push(("tag-to-missing-object", d));
+    let d = fresh("emptytag"); std::fs::write(d.join(".git").join("refs").join("tags").join("v8.8.8"), "").unwrap(); v.push(("empty-tag-ref", d));
+    // a shallow marker; an unfinished merge with conflict markers
+    let d = fresh("shallow"); let h = String::from_utf8_lossy(&Command::new("git").args(["rev-parse", "HEAD"]).current_dir(&d).output().unwrap().stdout).to_string();
+    std::fs::write(d.join(".git").join("shallow"), h).unwrap(); v.push(("shallow-marker", d));
+    let d = fresh("conflict");
+    git(&d, &["checkout", "-q", "-b", "side", "HEAD~1"]); std::fs::write(d.join("f.txt"), "3\n").unwrap(); git(&d, &["commit", "-q", "-am", "side"]);
+    git(&d, &["checkout", "-q", "main"]); git(&d, &["merge", "-q", "side"]); v.push(("unfinished-merge", d));
+    // -C names a file
+    std::fs::write(base.join("plainfile"), "x").unwrap(); v.push(("not-a-directory", base.join("plainfile")));
+    // a work tree that is a sub-directory of a repository whose root is not readable as a repository any more
+    let d = fresh("objectsgone"); let _ = std::fs::remove_dir_all(d.join(".git").join("objects")); v.push(("objects-directory-removed", d));
+    v
+}
+
 /// random multi-flag argument vectors and special situations (git missing, not a repository, ...)
 pub fn record(args: &[String]) {
     crate::gitrepo::isolate_git_env();
@@ -403,8 +449,19 @@ pub fn record(args: &[String]) {
     let empty_repo = std::env::temp_dir().join(format!("zv-nocommit-{}", std::process::id()));
     std::fs::create_dir_all(&empty_repo).unwrap();
     let _ = Command::new("git").args(["init", "-q", "-b", "main"]).current_dir(&empty_repo).output();
+    // unusual repository states, built once and only read afterwards
+    let odd = odd_repositories();
     let events = par_map(&idx, |i| {
         let mut rng = StdRng::seed_from_u64(seed.wrapping_mul(104_729).wrapping_add(*i as u64));
+        if i % 40 == 19 {
+            let (name, dir) = &odd[rng.gen_range(0..odd.len())];
+            let cmd = ["version", "flow"][rng.gen_range(0..2)];
+            let mut a: Vec<String> = vec![cmd.into(), "-C".into(), dir.display().to_string()];
+            if rng.gen_bool(0.5) { a.push("--output-format".into()); a.push(["semver", "pep440", "zerv"][rng.gen_range(0..3)].into()); }
+            if rng.gen_bool(0.3) { a.insert(0, "-v".into()); }
+            let r = run_bin(&a, None, &[], &["RUST_LOG"], None);
+            return event("special", &a, &r, false, true, json!({"repository": name}));
+        }
         if i % 40 == 39 {
             // special situations
             let (a, env, rm): (Vec<String>, Vec<(String, String)>, Vec<&str>) = match rng.gen_range(0..6) {
@@ -448,6 +505,7 @@ pub fn record(args: &[String]) {
         event("args", &a, &r, verbose, quiet_same, json!({"stdin": stdin_class}))
     });
     let _ = std::fs::remove_dir_all(&empty_dir);
+    let _ = std::fs::remove_dir_all(std::env::temp_dir().join(format!("zv-odd-{}", std::process::id())));
     let _ = std::fs::remove_dir_all(&empty_repo);
     let mut out = std::io::BufWriter::new(std::fs::File::create(&args[2]).unwrap());
     for e in &events {
